@@ -31,7 +31,9 @@ def run_reg(reqs, timeout=1500):
 def tok_case(q, r):
     ops = [int(x) for x in r["opids"]]
     dls = [1] * len(ops)      # SetTimeout(t > 0) always gives a deadline (t >= 1 ms)
-    return [ops, dls, [list(e) for e in r["events"]], r["reglen"], r["fresh"]]
+    kind = 1 if q.get("transport") == "nats" else 0
+    dks = list(r.get("datakinds") or [0] * len(ops))
+    return [kind, ops, dls, dks, [list(e) for e in r["events"]], r["reglen"], r["fresh"]]
 
 
 def oracle(q, r):
